@@ -75,6 +75,11 @@ func unquoteString(s string) (string, error) {
 				i += 4
 			} else {
 				replacement, ok := unescapes[r]
+				if r == '"' {
+					// \" is a valid escape in a (single-quoted) literal, although
+					// quoteString never needs to write it
+					replacement, ok = '"', true
+				}
 				if !ok {
 					return "", errors.New("unrecognized escape code: \\" + s[i-1:i])
 				}
